@@ -65,7 +65,10 @@ func VerifC16_IndexConsistency() {
 		// Bitset() refuses bit indexes >= sections (see report: the bound should be
 		// BloomBitLength); read those vectors directly so that every bit is checked.
 		vec := g.blooms[i]
-		if uint(i) < sections {
+		if uint(i) < sections || vs.Param("bitset") != 0 {
+			if uint(i) >= sections {
+				vs.Known("C16-bitset-rejects-bits-above-section-size", true)
+			}
 			v, err := g.Bitset(uint(i))
 			vs.Assert(err == nil && len(v) == int(sections/8), "Bitset returns the vector of a complete section")
 			vec = v
